@@ -10,7 +10,8 @@ package main
 //verif:stub os.Rename = c36Rename
 //verif:stub os.Remove = c36Remove
 //verif:stub path/filepath.Glob = c36Glob
-//verif:bound one rewriteFile call with a symbolic crash point before any of its file-system operations and an arbitrary error outcome of each operation; then (history harness) a second, undisturbed call
+//verif:stub path/filepath.EvalSymlinks = c36EvalSymlinks
+//verif:bound one rewriteFile call with a symbolic crash point before any of its file-system operations and an arbitrary error outcome of each operation; then (history harness, with the message file optionally reached through a symbolic link into another directory) a second, undisturbed call
 //verif:assume file-system model: a directory is a map name -> content; rename is atomic and replaces its target; write to the temporary file is all-or-nothing (partial writes of the temporary file never concern the target path); a crash happens between operations
 //verif:outside power-loss semantics (fsync, directory entry durability), concurrent langlint processes
 
@@ -101,6 +102,9 @@ func c36Rename(from, to string) error {
 	}
 	delete(c36FS, from)
 	c36FS[to] = v
+	if to == c36Path {
+		c36LinkTarget = "" // a rename onto a symbolic link replaces the link itself
+	}
 	return nil
 }
 
@@ -128,6 +132,42 @@ func c36Remove(name string) error {
 	}
 	delete(c36FS, name)
 	return nil
+}
+
+// c36LinkTarget: when non-empty, c36Path is a symbolic link to this file (in
+// another directory); the link is an entry of its own, replaced by a rename
+// onto it, followed by reads.
+var c36LinkTarget string
+
+const c36Target = "/s/catalog_en.txt"
+
+func c36EvalSymlinks(p string) (string, error) {
+	if p == c36Path && c36LinkTarget != "" {
+		return c36LinkTarget, nil
+	}
+	return p, nil
+}
+
+// c36Read: the content a reader of c36Path sees.
+func c36Read() (string, bool) {
+	if c36LinkTarget != "" {
+		v, ok := c36FS[c36LinkTarget]
+		return v, ok
+	}
+	v, ok := c36FS[c36Path]
+	return v, ok
+}
+
+// c36Extras counts files other than the message file (and, while the path is
+// a link, its target).
+func c36Extras() int {
+	n := 0
+	for name := range c36FS {
+		if name != c36Path && name != c36Target {
+			n++
+		}
+	}
+	return n
 }
 
 const (
@@ -159,6 +199,7 @@ func VerifC36_crashLeavesOldOrNew() {
 		return
 	}
 	c36FS = map[string]string{c36Path: c36Old}
+	c36LinkTarget = ""
 	c36Files = map[*os.File]string{}
 	c36TmpSeq = 0
 	crashAt := c36Points[sym.Choice("crashAt", len(c36Points))]
@@ -186,19 +227,27 @@ func VerifC36_laterRunCleansUp() {
 		return
 	}
 	c36FS = map[string]string{c36Path: c36Old}
+	c36LinkTarget = ""
+	if sym.Bool("throughSymlink") {
+		// the message file is reached through a symbolic link into another directory
+		c36FS = map[string]string{c36Target: c36Old}
+		c36LinkTarget = c36Target
+	}
 	c36Files = map[*os.File]string{}
 	c36TmpSeq = 0
 	crashAt := c36HistoryPoints[sym.Choice("crashAt", len(c36HistoryPoints))]
 	_, crashed := c36Run(crashAt, false)
 	sym.Assume(crashed)
-	if _, ok := c36FS[c36Path]; !ok {
+	if _, ok := c36Read(); !ok {
 		return // the first harness reports this state
 	}
 	sym.Known("C36-stale-temporary-after-crash", crashAt == "Rename1")
 	err, _ := c36Run("", false)
 	sym.Reach("second-run")
 	sym.Assert(err == nil, "the later undisturbed run failed")
-	sym.Assert(len(c36FS) == 1, "after a crashed run and a later successful run a temporary or backup file remains")
+	content, ok := c36Read()
+	sym.Assert(ok && content == c36New, "after a crashed run and a later successful run the path does not hold the new content")
+	sym.Assert(c36Extras() == 0, "after a crashed run and a later successful run a temporary or backup file remains")
 }
 
 // ---- native replay: the real code, killed by SIGKILL on entry to a rename.
@@ -261,14 +310,23 @@ func c36Native() {
 
 func c36NativeHistory() {
 	c36Child()
+	viaLink := sym.Bool("throughSymlink")
 	point := c36HistoryPoints[sym.Choice("crashAt", len(c36HistoryPoints))]
 	dir, err := os.MkdirTemp("", "c36-")
 	if err != nil {
 		panic(err)
 	}
 	defer os.RemoveAll(dir)
-	path := filepath.Join(dir, "messages_en.txt")
-	os.WriteFile(path, []byte(c36Old), 0o644)
+	os.MkdirAll(filepath.Join(dir, "d"), 0o755)
+	os.MkdirAll(filepath.Join(dir, "s"), 0o755)
+	path := filepath.Join(dir, "d", "messages_en.txt")
+	if viaLink {
+		target := filepath.Join(dir, "s", "catalog_en.txt")
+		os.WriteFile(target, []byte(c36Old), 0o644)
+		os.Symlink(target, path)
+	} else {
+		os.WriteFile(path, []byte(c36Old), 0o644)
+	}
 	if when := c36RenameIndex(point); when > 0 {
 		c36KillOnRename(path, "VerifC36_laterRunCleansUp", when)
 	} else {
@@ -278,6 +336,16 @@ func c36NativeHistory() {
 		sym.Assume(false) // the path is gone: the other harness reports that state
 	}
 	c36KillOnRename(path, "VerifC36_laterRunCleansUp", 0)
-	ents, _ := os.ReadDir(dir)
-	sym.Assert(len(ents) == 1, "after a killed run and a later successful run a temporary or backup file remains")
+	b, rerr := os.ReadFile(path)
+	sym.Assert(rerr == nil && string(b) == c36New, "after a crashed run and a later successful run the path does not hold the new content")
+	extras := 0
+	for _, sub := range []string{"d", "s"} {
+		ents, _ := os.ReadDir(filepath.Join(dir, sub))
+		for _, e := range ents {
+			if e.Name() != "messages_en.txt" && e.Name() != "catalog_en.txt" {
+				extras++
+			}
+		}
+	}
+	sym.Assert(extras == 0, "after a killed run and a later successful run a temporary or backup file remains")
 }
